@@ -28,7 +28,7 @@ def one(i):
     from models import cmref
     from simkit.decisions import Decisions, substream
     ds = Decisions(rng=substream("C14cal", 0, i))
-    cfg = c14.draw_config(ds, len(c14.ENVS))
+    cfg = c14.draw_config(ds, len(c14.ENVS), quick=True)
     recs = []
     real_run = c14._REAL["run"]
 
@@ -59,13 +59,23 @@ def one(i):
             if n >= 6:
                 continue
             n += 1
-            cands = cmref.reference_return(ham, seeds[k], cfg["section"], cfg["max_steps"] * cfg["dt"] + 3 * cfg["dt"], cfg["dt"])
-            if not cands:
+            cands = cmref.reference_return(ham, seeds[k], cfg["section"], float(tr) + 6 * cfg["dt"], cfg["dt"])
+            # the same admissible set as the check: ambiguous crossings up to and including the first firmly positive one
+            adm = []
+            for (t, s4, D, margin) in cands:
+                if D > margin:
+                    adm.append((t, s4)); break
+                if abs(D) <= margin:
+                    adm.append((t, s4))
+            if not adm or any(b[0] - a[0] < 2.5 * cfg["dt"] for a, b in zip(cands, cands[1:])):
                 continue
-            best = min(cands, key=lambda a: float(np.max(np.abs(a[1] - pt))))
+            best = min(adm, key=lambda a: float(np.max(np.abs(a[1] - pt))))
             amp = float(np.max(np.abs(seeds[k])))
             rerrs.append((float(np.max(np.abs(best[1] - pt))), abs(best[0] - tr), amp))
-    return (cfg["method"], cfg["order"], cfg["dt"], cfg["n_iter"], cfg["section"], eerr, rerrs)
+    return (cfg["method"], cfg["order"], cfg["dt"], cfg["n_iter"], cfg["section"], eerr, rerrs, c14.ENVS[cfg["env"]]["name"], cfg["h0"])
+
+
+TIER = "quick"
 
 
 def main(n):
@@ -73,13 +83,20 @@ def main(n):
     logging.disable(logging.CRITICAL)
     warnings.filterwarnings("ignore")
     from checks import c14
-    c14.warmup("quick")
+    c14.warmup(TIER)
     ctx = multiprocessing.get_context("fork")
     with ProcessPoolExecutor(14, mp_context=ctx) as ex:
         out = [r for r in ex.map(one, range(n), chunksize=4) if r]
     g_e = defaultdict(list)
     g_r = defaultdict(list)
-    for (m, o, dt, ni, sec, eerr, rerrs) in out:
+    worst = []
+    for (m, o, dt, ni, sec, eerr, rerrs, envname, h0) in out:
+        for (dx, dtm, amp) in rerrs:
+            worst.append((dx / max(amp, 1e-3) / (dt * dt if m == "fixed" else 1.0), dtm / (dt * dt if m == "fixed" else 1.0), m, o, dt, envname, h0, sec))
+    worst.sort(reverse=True)
+    print("worst normalised (dx/amp/dt^2 for fixed):", worst[:6])
+    print("worst time (dt_ret/dt^2 for fixed):", sorted(worst, key=lambda w: -w[1])[:6])
+    for (m, o, dt, ni, sec, eerr, rerrs, envname, h0) in out:
         g_e[(m, o, dt)].append(eerr / ni)
         for (dx, dtm, amp) in rerrs:
             g_r[(m, o, dt)].append((dx / max(amp, 1e-3), dtm))
@@ -90,4 +107,6 @@ def main(n):
 
 
 if __name__ == "__main__":
+    if len(sys.argv) > 2:
+        TIER = sys.argv[2]
     main(int(sys.argv[1]) if len(sys.argv) > 1 else 400)
